@@ -28,6 +28,21 @@ fn verif_witness() {
                     left_keys: lk.clone(), right_keys: rk.clone(), output_schema: schema }), predicate: Predicate::ColumnGtConst(col, 5) };
                 let res = opt.pushdown_filters(ir);
                 cases += 1;
+                // two-column predicate over the right side: both columns must be remapped consistently
+                for col2 in lw..out_w {
+                    let schema2: Vec<String> = (0..out_w).map(|i| format!("o{i}")).collect();
+                    let ir2 = IRNode::Filter { input: Box::new(IRNode::Join { left: Box::new(scan("l", lw)), right: Box::new(scan("r", rw)),
+                        left_keys: lk.clone(), right_keys: rk.clone(), output_schema: schema2 }), predicate: Predicate::ColumnsLt(col, col2) };
+                    cases += 1;
+                    if let IRNode::Join { right, .. } = &opt.pushdown_filters(ir2) {
+                        if let IRNode::Filter { predicate: Predicate::ColumnsLt(c1, c2), .. } = right.as_ref() {
+                            let (w1, w2) = (nth_nonkey(&rk, col - lw, rw), nth_nonkey(&rk, col2 - lw, rw));
+                            if w1 != Some(*c1) || w2 != Some(*c2) {
+                                vw_found(format!("Filter(col {col} < col {col2}) over Join(left width {lw}, right arity {rw}, right_keys {:?}) was pushed into the right input as col {c1} < col {c2}, but those join-output columns show right-input columns {:?} and {:?}", rk, w1, w2));
+                            }
+                        }
+                    }
+                }
                 if let IRNode::Join { right, .. } = &res {
                     if let IRNode::Filter { predicate: Predicate::ColumnGtConst(c, _), .. } = right.as_ref() {
                         let want = nth_nonkey(&rk, col - lw, rw);
